@@ -5,13 +5,11 @@
 -/
 import Simpleline.Spec.InputSpec
 
-namespace Simpleline
+namespace Simpleline.Input
 
 @[simp] theorem final_ok (c : Cfg) : final (.ok c) = c := rfl
 @[simp] theorem final_error (o : Outcome) (c : Cfg) : final (.error (o, c)) = c := rfl
 @[simp] theorem final_pure (c : Cfg) : final (pure c : Except (Outcome × Cfg) Cfg) = c := rfl
-@[simp] theorem isOk_ok (c : Cfg) : isOk (.ok c) = true := rfl
-@[simp] theorem isOk_error (x : Outcome × Cfg) : isOk (.error x) = false := rfl
 
 /-! ### `listSet` -/
 
@@ -267,7 +265,7 @@ theorem deliver_retPromptNone {c c' : Cfg} (h : c.deliver = some c') : c'.retPro
 /-! ### `take` -/
 
 /-- the head `e` of the active queue is taken for dispatch, `es` stay -/
-def Cfg.pop (c : Cfg) (e : Int × Nat × Sig) (es : List (Int × Nat × Sig)) : Cfg :=
+def _root_.Simpleline.Cfg.pop (c : Cfg) (e : Int × Nat × Sig) (es : List (Int × Nat × Sig)) : Cfg :=
   { c with L := { c.L with queues := listSet c.L.queues c.L.active fun q => { q with entries := es } },
            tr := .take c.L.active e.2.2 :: c.tr }
 
@@ -360,4 +358,4 @@ theorem raise_code (c : Cfg) (k : Kind) : (final (c.raise k)).code.Sublist c.cod
 theorem final_ite (p : Prop) [Decidable p] (a b : Except (Outcome × Cfg) Cfg) :
     final (if p then a else b) = if p then final a else final b := by split <;> rfl
 
-end Simpleline
+end Simpleline.Input
